@@ -163,9 +163,11 @@ func fatal(format string, a ...any) {
 // abstract values and state
 
 const (
-	vNone  = iota
-	vPath  // a location / object named by a root-relative path ("" = the root object itself, "@T…" = abstracted by type)
-	vFresh // a freshly allocated object (constructor alias analysis): id for sync objects, fields for structs
+	vNone    = iota
+	vPath    // a location / object named by a root-relative path ("" = the root object itself, "@T…" = abstracted by type)
+	vFresh   // a freshly allocated object (constructor alias analysis): id for sync objects, fields for structs
+	vLockFn  // a method value of a lock operation (`unlock := c.mu.Unlock`): p = canonical lock path, op = the method
+	vClosure // a function literal held in a local: calling it runs its body in the caller's lock state
 )
 
 type aval struct {
@@ -173,8 +175,11 @@ type aval struct {
 	p      string
 	id     int
 	fields map[string]aval
-	fresh  *bool // an abstracted object allocated in this activation that has not escaped yet
-	ref    bool  // the value is a map / slice / pointer read from the location p (writes through it hit p)
+	fresh  *bool        // an abstracted object allocated in this activation that has not escaped yet
+	ref    bool         // the value is a map / slice / pointer read from the location p (writes through it hit p)
+	op     string       // vLockFn: Lock | Unlock | RLock | RUnlock | TryLock | TryRLock
+	lit    *ast.FuncLit // vClosure
+	litF   *frame       // vClosure: the frame the literal was created in
 }
 
 func (v aval) isFresh() bool { return v.fresh != nil && *v.fresh }
@@ -307,6 +312,9 @@ type analyzer struct {
 	goN       int
 	entries   map[[2]string]string // (typ, entry) -> file
 	collect   bool                 // constructor alias pass: do not record rows
+	published bool                 // constructor entry: the object under construction has been handed to another goroutine / a stored closure
+	nAccess   int                  // number of access() calls that recorded something (closure bodies: did it touch shared state?)
+	rootAbs   map[string]string    // "@pkg.T" -> "T" for the thread-safe root types (types with public entries)
 	lastFresh bool                 // set by place: the location lies in a fresh, unescaped object
 }
 
@@ -333,8 +341,31 @@ func (a *analyzer) access(pos token.Pos, path string, write, atomic, init bool, 
 	if path == "" {
 		return
 	}
-	k := rowKey{typ: a.rootType, entry: a.entry, loc: a.locName(path), write: write, atomic: atomic,
-		init: init || a.ctor, site: strings.Join(a.site, "/") + "@" + a.L.fset.Position(pos).String()}
+	a.nAccess++
+	loc := a.locName(path)
+	held := st.locks
+	isInit := init || (a.ctor && !a.published)
+	if strings.HasPrefix(path, "global.") {
+		// a package-level variable is shared by every instance and every constructor call: never `init`
+		isInit = false
+	}
+	if abs, t, ok := a.otherInstance(path); ok {
+		// a field of ANOTHER instance of a thread-safe root type (reached through a parameter / untracked
+		// pointer): the same location class as the receiver's field, protected only by locks of that
+		// same other instance — the receiver's own locks do not count
+		loc = t + path[len(abs):]
+		held = map[string]byte{}
+		for l, m := range st.locks {
+			if strings.HasPrefix(l, abs+".") {
+				held["="+t+l[len(abs):]] = m
+			}
+		}
+		if !init {
+			isInit = false
+		}
+	}
+	k := rowKey{typ: a.rootType, entry: a.entry, loc: loc, write: write, atomic: atomic,
+		init: isInit, site: strings.Join(a.site, "/") + "@" + a.L.fset.Position(pos).String()}
 	v := a.rows[k]
 	if v == nil {
 		v = &rowVal{file: a.file}
@@ -342,19 +373,53 @@ func (a *analyzer) access(pos token.Pos, path string, write, atomic, init bool, 
 	}
 	if !v.set {
 		v.locks = map[string]byte{}
-		for l, m := range st.locks {
+		for l, m := range held {
 			v.locks[l] = m
 		}
 		v.set = true
 		return
 	}
 	for l, m := range v.locks {
-		w, ok := st.locks[l]
+		w, ok := held[l]
 		if !ok {
 			delete(v.locks, l)
 		} else if w != m {
 			v.locks[l] = 'S'
 		}
+	}
+}
+
+// otherInstance: path = "@pkg.T.rest" where T is a thread-safe root type -> ("@pkg.T", "T", true)
+func (a *analyzer) otherInstance(path string) (string, string, bool) {
+	if !strings.HasPrefix(path, "@") {
+		return "", "", false
+	}
+	for abs, t := range a.rootAbs {
+		if strings.HasPrefix(path, abs+".") {
+			return abs, t, true
+		}
+	}
+	return "", "", false
+}
+
+// funcValue: an anchored function / method used as a VALUE (method value `c.m`, function value `f`): it may
+// be called later, on any goroutine, with no lock held — its body is analysed with the empty lockset.
+func (a *analyzer) funcValue(f *frame, fn *types.Func, recv aval) {
+	fn = fn.Origin()
+	fi := a.L.funcs[fn]
+	if fi == nil || !fi.pi.anchored || fi.decl.Body == nil {
+		return
+	}
+	saveCtor, before := a.ctor, a.nAccess
+	if !a.isOptionEntry() {
+		a.ctor = false
+	}
+	a.site = append(a.site, "value")
+	a.inline(f, fn, fi, recv, []aval{}, nil, state{locks: map[string]byte{}})
+	a.site = a.site[:len(a.site)-1]
+	a.ctor = saveCtor
+	if saveCtor && a.nAccess > before && !a.isOptionEntry() {
+		a.published = true
 	}
 }
 
@@ -692,6 +757,10 @@ func (a *analyzer) expr(f *frame, e ast.Expr, st state) aval {
 			a.access(x.Pos(), p, false, false, false, st)
 			return none
 		}
+		if fn, ok := o.(*types.Func); ok {
+			a.funcValue(f, fn, none)
+			return none
+		}
 		v, _ := f.lookup(o)
 		return a.byType(f, e, v)
 	case *ast.SelectorExpr:
@@ -699,6 +768,9 @@ func (a *analyzer) expr(f *frame, e ast.Expr, st state) aval {
 		if sel == nil {
 			if p, ok := a.place(f, x, st); ok {
 				a.access(x.Pos(), p, false, false, false, st)
+			}
+			if fn, ok := f.pi.info.Uses[x.Sel].(*types.Func); ok {
+				a.funcValue(f, fn, none)
 			}
 			return none
 		}
@@ -725,8 +797,21 @@ func (a *analyzer) expr(f *frame, e ast.Expr, st state) aval {
 			}
 			return rv
 		}
-		// method value
-		a.object(f, x.X, st)
+		// method value (or method expression): the method may run later, anywhere, with no lock held
+		recv := none
+		if sel.Kind() == types.MethodVal {
+			if tn := namedOf(a.typeOf(f, x.X)); tn != nil && isSyncPkg(pkgPathOf(tn)) && lockMethod(sel.Obj().Name()) &&
+				(tn.Name() == "Mutex" || tn.Name() == "RWMutex" || tn.Name() == "Locker") {
+				if p, ok := a.syncRecv(f, x.X, st); ok {
+					return aval{k: vLockFn, p: a.canon(p), op: sel.Obj().Name()}
+				}
+				return none
+			}
+			recv = a.object(f, x.X, st)
+		}
+		if fn, ok := sel.Obj().(*types.Func); ok {
+			a.funcValue(f, fn, recv)
+		}
 		return none
 	case *ast.StarExpr:
 		return a.byType(f, e, a.expr(f, x.X, st))
@@ -787,7 +872,7 @@ func (a *analyzer) expr(f *frame, e ast.Expr, st state) aval {
 	case *ast.FuncLit:
 		// a closure that is stored or passed on: it may run later, on any goroutine, with no lock held
 		a.closure(f, x, state{locks: map[string]byte{}}, false)
-		return none
+		return aval{k: vClosure, lit: x, litF: f}
 	case *ast.CallExpr:
 		v, _ := a.call(f, x, st)
 		return v
@@ -811,9 +896,15 @@ func (a *analyzer) closure(f *frame, fl *ast.FuncLit, st state, inline bool) sta
 		a.ctor = false
 	}
 	a.site = append(a.site, fmt.Sprintf("func@%d", a.L.fset.Position(fl.Pos()).Line))
+	before := a.nAccess
 	out := a.body(nf, fl.Body, st.copy())
 	a.site = a.site[:len(a.site)-1]
 	a.ctor = saveCtor
+	if saveCtor && !inline && !a.isOptionEntry() && a.nAccess > before {
+		// a closure of the constructor that touches the object's state and is stored / passed on: whatever
+		// the constructor writes after this point can be concurrent with it
+		a.published = true
+	}
 	return out
 }
 
@@ -977,6 +1068,32 @@ func (a *analyzer) call(f *frame, c *ast.CallExpr, st state) (aval, bool) {
 		case *types.Func:
 			if fi := a.L.funcs[o.Origin()]; fi != nil && fi.pi.anchored {
 				return a.inline(f, o.Origin(), fi, none, nil, c, st)
+			}
+		case *types.Var:
+			if v, ok := f.lookup(o); ok {
+				switch v.k {
+				case vLockFn:
+					a.lockOp(&st, v.p, v.op) // st.locks is shared with the statement walker
+					return none, false
+				case vClosure:
+					a.args(f, c.Args, st)
+					key := fmt.Sprintf("closure@%d", v.lit.Pos())
+					for _, s := range a.stack {
+						if s == key {
+							return none, false
+						}
+					}
+					a.stack = append(a.stack, key)
+					out := a.closure(v.litF, v.lit, st, true)
+					a.stack = a.stack[:len(a.stack)-1]
+					for k := range st.locks {
+						delete(st.locks, k)
+					}
+					for k, m := range out.locks {
+						st.locks[k] = m
+					}
+					return none, out.dead
+				}
 			}
 		}
 		a.expr(f, fx, st)
@@ -1923,15 +2040,71 @@ func (a *analyzer) goStmt(f *frame, g *ast.GoStmt, st state) {
 				break
 			}
 		}
-		a.call(f, c, st)
+		if !a.goFunc(f, c, st, empty) {
+			a.call(f, c, st)
+		}
 	default:
-		a.call(f, c, st)
+		if !a.goFunc(f, c, st, empty) {
+			a.call(f, c, st)
+		}
 	}
 	a.entry, a.ctor, a.site, a.stack = saveEntry, saveCtor, saveSite, saveStack
+	if saveCtor && !strings.HasPrefix(saveEntry, "option:") {
+		// the constructor started a goroutine: what it writes afterwards is no longer pre-publication
+		a.published = true
+	}
+}
+
+// goFunc: `go f(args)` / `go pkg.F(args)` / `go f[T](args)` with f a function of an anchored package: its body
+// runs on the new goroutine with no lock held (not in the caller's lock state, not as constructor code)
+func (a *analyzer) goFunc(f *frame, c *ast.CallExpr, st state, empty state) bool {
+	fun := unparen(c.Fun)
+	if ix, ok := fun.(*ast.IndexExpr); ok {
+		fun = unparen(ix.X)
+	}
+	if ix, ok := fun.(*ast.IndexListExpr); ok {
+		fun = unparen(ix.X)
+	}
+	var fn *types.Func
+	switch fx := fun.(type) {
+	case *ast.Ident:
+		fn, _ = f.pi.info.Uses[fx].(*types.Func)
+	case *ast.SelectorExpr:
+		if f.pi.info.Selections[fx] == nil {
+			fn, _ = f.pi.info.Uses[fx.Sel].(*types.Func)
+		}
+	}
+	if fn == nil {
+		return false
+	}
+	fn = fn.Origin()
+	fi := a.L.funcs[fn]
+	if fi == nil || !fi.pi.anchored {
+		return false
+	}
+	pre := a.args(f, c.Args, st)
+	if pre == nil {
+		pre = []aval{}
+	}
+	a.entry, a.ctor, a.site, a.stack = "go:"+fn.Name(), false, nil, nil
+	a.entries[[2]string{a.rootType, a.entry}] = a.file
+	a.inline(f, fn, fi, none, pre, c, empty)
+	return true
 }
 
 func (a *analyzer) deferStmt(f *frame, d *ast.DeferStmt, st state) state {
 	c := d.Call
+	if id, ok := unparen(c.Fun).(*ast.Ident); ok {
+		if o, isVar := f.pi.info.Uses[id].(*types.Var); isVar {
+			if v, found := f.lookup(o); found && v.k == vLockFn {
+				f.deferred = append(f.deferred, deferredOp{lock: v.p, op: v.op})
+				if v.op == "Unlock" || v.op == "RUnlock" {
+					f.defUnl[v.p] = true
+				}
+				return st
+			}
+		}
+	}
 	if fx, ok := unparen(c.Fun).(*ast.SelectorExpr); ok {
 		if sel := f.pi.info.Selections[fx]; sel != nil && sel.Kind() == types.MethodVal {
 			tn := namedOf(a.typeOf(f, fx.X))
@@ -1992,6 +2165,7 @@ func (a *analyzer) runEntry(e entryDesc, collect bool) {
 	a.entry = e.label
 	a.file = e.fi.file
 	a.ctor = e.ctor
+	a.published = false
 	a.collect = collect
 	a.stack = []string{e.fn.FullName() + "|"}
 	a.site = nil
@@ -2095,16 +2269,16 @@ func main() {
 
 	a := &analyzer{L: L, rows: map[rowKey]*rowVal{}, visited: map[*types.Func]bool{}, alias: map[string]map[string]string{},
 		fresh: map[string]map[string]int{}, abstr: map[*types.TypeName]bool{}, mutMemo: map[*types.Func]int{}, pmMemo: map[string]bool{},
-		entries: map[[2]string]string{}}
+		entries: map[[2]string]string{}, rootAbs: map[string]string{}}
 
 	// enumerate entries in the anchored files
 	var public, ctors, internal []entryDesc
 	for _, ip := range pkgOrder {
 		pi := L.pkgs[ip]
 		for i, f := range pi.files {
-			if !anchoredFile[pi.names[i]] {
-				continue
-			}
+			// a file of an anchored package that is not itself anchored (e.g. a new file): only what belongs to a
+			// type declared in an anchored file is an entry — its methods and the functions returning it
+			foreign := !anchoredFile[pi.names[i]]
 			for _, d := range f.Decls {
 				fd, ok := d.(*ast.FuncDecl)
 				if !ok {
@@ -2118,6 +2292,9 @@ func main() {
 				sig := fn.Type().(*types.Signature)
 				if sig.Recv() != nil {
 					tn := namedOf(sig.Recv().Type())
+					if foreign && (tn == nil || !anchoredFile[fileOfType(L, tn)]) {
+						continue
+					}
 					e := entryDesc{typ: tn, name: fn.Name(), fn: fn, fi: fi, label: fn.Name()}
 					if tn != nil && tn.Exported() && fn.Exported() {
 						public = append(public, e)
@@ -2152,7 +2329,17 @@ func main() {
 						lbl = "option:" + fn.Name()
 					}
 					e := entryDesc{typ: rootT, name: fn.Name(), fn: fn, fi: fi, ctor: true, label: lbl}
-					if fn.Exported() {
+					// a function that RECEIVES an object of an anchored struct type works on an object that already
+					// exists (and may be shared): not a constructor, its accesses are not pre-publication
+					takesObj := false
+					for j := 0; j < sig.Params().Len(); j++ {
+						if ptn := namedOf(sig.Params().At(j).Type()); ptn != nil && a.structOf(ptn) != nil && anchoredFile[fileOfType(L, ptn)] {
+							if _, isPtr := sig.Params().At(j).Type().Underlying().(*types.Pointer); isPtr {
+								takesObj = true
+							}
+						}
+					}
+					if fn.Exported() && !takesObj {
 						ctors = append(ctors, e)
 					} else {
 						e.ctor = false
@@ -2161,8 +2348,18 @@ func main() {
 					}
 					continue
 				}
+				if foreign {
+					continue
+				}
 				internal = append(internal, entryDesc{typ: nil, name: fn.Name(), fn: fn, fi: fi, label: fn.Name()})
 			}
+		}
+	}
+
+	// the thread-safe root types: accesses to ANOTHER instance of one of them are rows of the same location class
+	for _, e := range append(append([]entryDesc{}, public...), ctors...) {
+		if e.typ != nil && a.structOf(e.typ) != nil && !a.abstracted(e.typ) {
+			a.rootAbs[absName(e.typ)] = e.typ.Name()
 		}
 	}
 
@@ -2221,10 +2418,14 @@ func main() {
 	for k, v := range a.rows {
 		r := outRow{file: v.file, typ: k.typ, entry: k.entry, loc: k.loc, write: k.write, atomic: k.atomic, init: k.init}
 		for l, m := range v.locks {
+			name := k.typ + "." + l
+			if strings.HasPrefix(l, "=") { // absolute name (lock of another instance of a root type)
+				name = l[1:]
+			}
 			if m == 'X' {
-				r.excl = append(r.excl, k.typ+"."+l)
+				r.excl = append(r.excl, name)
 			} else {
-				r.shared = append(r.shared, k.typ+"."+l)
+				r.shared = append(r.shared, name)
 			}
 		}
 		sort.Strings(r.excl)
